@@ -453,6 +453,8 @@ def merge_contracts(cs):
         pk_ = _pkg_of_file(c.get('file'))
         for nm_ in list(c['defines']) + list(c['specs']):
             out.setdefault('defpkg', {})[nm_] = pk_
+        # the same name may be declared by several packages (pw/pm of the two parsers): a package sees its own first
+        out.setdefault('defines_pkg', {}).setdefault(pk_, {}).update(c['defines'])
         out['axioms'] += [(l, a, t, c.get('file')) for (l, a, t) in c['axioms']]
         out['lemmas'] += [(l, a, t, c.get('file')) for (l, a, t) in c['lemmas']]
         for k, v in c['funcs'].items():
